@@ -308,6 +308,9 @@ func runProperty(spec *PropSpec, tier string, seed, workers int) int {
 				lbl := findingLabel(h, f)
 				if res != "reproduced" {
 					msg := fmt.Sprintf("UNCONFIRMED-CEX property=%s harness=%s label=%s native=%s", spec.ID, h.Func, lbl, res)
+					if strings.Contains(res, "error") {
+						msg += " (" + firstLine(strings.TrimSpace(out)) + ")"
+					}
 					say("%s", msg)
 					unconfirmed = append(unconfirmed, msg+" :: "+firstLine(lastLines(out, 3)))
 					inconclusive = append(inconclusive, "unconfirmed counterexample "+lbl)
